@@ -833,6 +833,11 @@ def run_show_case(problem, backend, v, fix, seqname, order, collect=None, naming
                     try:
                         fit, ret = apply_op(step, fit, info, fixed, tmpdir, stats)
                     except Exception as e:  # noqa: BLE001
+                        if isinstance(e, np.linalg.LinAlgError) and step in ("fit", "fitA"):
+                            # a minimisation that fails numerically (scipy's Hessian on the badly scaled problems: the subject of C06 / C15,
+                            # where it is a known finding) leaves nothing to display - the history ends here without a verdict
+                            stats["ops_failed_numerically"] = stats.get("ops_failed_numerically", 0) + 1
+                            return out, stats
                         out.append((si, step, "op:" + step, "no exception", type(e).__name__ + ": " + str(e)[:120], "exception:" + type(e).__name__))
                         return out, stats
                 if step == "reload":
